@@ -1,22 +1,23 @@
-/- Where the deserializer stops, part 2: the mutually recursive routines, piece by piece. -/
+/- Where the deserializer stops, part 2: the mutually recursive routines, piece by piece (`FinK`: `NoMemory` may also
+   come from an unquoted key that is too long). -/
 import AJ.Lemmas.ClassGhost
 set_option linter.unusedSimpArgs false
 set_option linter.unusedVariables false
 namespace JD
 
 def GhV (cfg : Cfg) (t : List Byte) (n f : Nat) : Prop :=
-  ∀ L s, Lv t n s → Fin cfg t n (Lv t n) (parseVariant cfg f L s).1 (parseVariant cfg f L s).2.2
+  ∀ L s, Lv t n s → FinK cfg t n (Lv t n) (parseVariant cfg f L s).1 (parseVariant cfg f L s).2.2
 def GhE (cfg : Cfg) (t : List Byte) (n f : Nat) : Prop :=
-  ∀ L s acc, Lv t n s → Fin cfg t n (Lv t n) (parseElems cfg f L s acc).1 (parseElems cfg f L s acc).2.2
+  ∀ L s acc, Lv t n s → FinK cfg t n (Lv t n) (parseElems cfg f L s acc).1 (parseElems cfg f L s acc).2.2
 def GhM (cfg : Cfg) (t : List Byte) (n f : Nat) : Prop :=
-  ∀ L s ms, Tk t n s → Fin cfg t n (Lv t n) (parseMembers cfg f L s ms).1 (parseMembers cfg f L s ms).2.2
+  ∀ L s ms, Tk t n s → FinK cfg t n (Lv t n) (parseMembers cfg f L s ms).1 (parseMembers cfg f L s ms).2.2
 
 section
 variable {cfg : Cfg} {t : List Byte} {n : Nat} (hN : NulAt t n)
 include hN
 
-theorem gh_pvArr {f L' : Nat} (hE : GhE cfg t n f) (r : Code × St) (h : Fin cfg t n (Tk t n) r.1 r.2) :
-    Fin cfg t n (Lv t n) (pvArr cfg f L' r).1 (pvArr cfg f L' r).2.2 := by
+theorem gh_pvArr {f L' : Nat} (hE : GhE cfg t n f) (r : Code × St) (h : FinK cfg t n (Tk t n) r.1 r.2) :
+    FinK cfg t n (Lv t n) (pvArr cfg f L' r).1 (pvArr cfg f L' r).2.2 := by
   obtain ⟨c, s⟩ := r
   cases c <;> try exact h
   have h' : Tk t n s := h
@@ -25,8 +26,8 @@ theorem gh_pvArr {f L' : Nat} (hE : GhE cfg t n f) (r : Code × St) (h : Fin cfg
   · exact Tk.move hN h'
   · exact hE _ _ _ h'.1.1
 
-theorem gh_pvObj {f L' : Nat} (hM : GhM cfg t n f) (r : Code × St) (h : Fin cfg t n (Tk t n) r.1 r.2) :
-    Fin cfg t n (Lv t n) (pvObj cfg f L' r).1 (pvObj cfg f L' r).2.2 := by
+theorem gh_pvObj {f L' : Nat} (hM : GhM cfg t n f) (r : Code × St) (h : FinK cfg t n (Tk t n) r.1 r.2) :
+    FinK cfg t n (Lv t n) (pvObj cfg f L' r).1 (pvObj cfg f L' r).2.2 := by
   obtain ⟨c, s⟩ := r
   cases c <;> try exact h
   have h' : Tk t n s := h
@@ -36,8 +37,8 @@ theorem gh_pvObj {f L' : Nat} (hM : GhM cfg t n f) (r : Code × St) (h : Fin cfg
   · exact hM _ _ _ h'
 
 omit hN in
-theorem gh_pvStr (r : Code × List Byte × St) (h : Fin cfg t n (Lv t n) r.1 r.2.2) :
-    Fin cfg t n (Lv t n) (pvStr r).1 (pvStr r).2.2 := by
+theorem gh_pvStr (r : Code × List Byte × St) (h : FinK cfg t n (Lv t n) r.1 r.2.2) :
+    FinK cfg t n (Lv t n) (pvStr r).1 (pvStr r).2.2 := by
   obtain ⟨c, x, s⟩ := r
   cases c <;> exact h
 
@@ -50,34 +51,34 @@ theorem gh_kw {v : Val} (ks : List Byte) (s : St) (h : Lv t n s) :
   exact hb
 
 theorem gh_pvTok {f L : Nat} (hE : GhE cfg t n f) (hM : GhM cfg t n f) (s : St) (h : Tk t n s) :
-    Fin cfg t n (Lv t n) (pvTok cfg f L s).1 (pvTok cfg f L s).2.2 := by
+    FinK cfg t n (Lv t n) (pvTok cfg f L s).1 (pvTok cfg f L s).2.2 := by
   simp only [pvTok, cur_loaded h.1.2]
   split
   · cases L with
     | zero => exact h
-    | succ L' => exact gh_pvArr hN hE _ (gh_skipSpaces hN _ _ (Tk.move hN h))
+    | succ L' => exact gh_pvArr hN hE _ (gh_skipSpaces hN _ _ (Tk.move hN h)).toK
   · split
     · cases L with
       | zero => exact h
-      | succ L' => exact gh_pvObj hN hM _ (gh_skipSpaces hN _ _ (Tk.move hN h))
+      | succ L' => exact gh_pvObj hN hM _ (gh_skipSpaces hN _ _ (Tk.move hN h)).toK
     · split
-      · exact gh_pvStr _ (gh_parseQuoted hN h.2 _ _ _ _ (Tk.move hN h))
+      · exact gh_pvStr _ (gh_parseQuoted hN h.2 _ _ _ _ (Tk.move hN h)).toK
       · split
-        · exact gh_kw hN _ _ h.1.1
+        · exact (gh_kw hN _ _ h.1.1).toK
         · split
-          · exact gh_kw hN _ _ h.1.1
+          · exact (gh_kw hN _ _ h.1.1).toK
           · split
-            · exact gh_kw hN _ _ h.1.1
-            · exact gh_parseNumeric hN s h
+            · exact (gh_kw hN _ _ h.1.1).toK
+            · exact (gh_parseNumeric hN s h).toK
 
 theorem gh_pvK {f L : Nat} (hE : GhE cfg t n f) (hM : GhM cfg t n f) (r : Code × St)
-    (h : Fin cfg t n (Tk t n) r.1 r.2) : Fin cfg t n (Lv t n) (pvK cfg f L r).1 (pvK cfg f L r).2.2 := by
+    (h : FinK cfg t n (Tk t n) r.1 r.2) : FinK cfg t n (Lv t n) (pvK cfg f L r).1 (pvK cfg f L r).2.2 := by
   obtain ⟨c, s⟩ := r
   cases c <;> try exact h
   exact gh_pvTok hN hE hM s h
 
 theorem gh_peK2 {f L : Nat} {acc : List Val} (hE : GhE cfg t n f) (r : Code × St)
-    (h : Fin cfg t n (Tk t n) r.1 r.2) : Fin cfg t n (Lv t n) (peK2 cfg f L acc r).1 (peK2 cfg f L acc r).2.2 := by
+    (h : FinK cfg t n (Tk t n) r.1 r.2) : FinK cfg t n (Lv t n) (peK2 cfg f L acc r).1 (peK2 cfg f L acc r).2.2 := by
   obtain ⟨c, s⟩ := r
   cases c <;> try exact h
   have h' : Tk t n s := h
@@ -89,29 +90,38 @@ theorem gh_peK2 {f L : Nat} {acc : List Val} (hE : GhE cfg t n f) (r : Code × S
     · exact ⟨h'.1, fun h0 => absurd h0 h'.2⟩
 
 theorem gh_peK1 {f L : Nat} {acc : List Val} (hE : GhE cfg t n f) (r : Code × Val × St)
-    (h : Fin cfg t n (Lv t n) r.1 r.2.2) : Fin cfg t n (Lv t n) (peK1 cfg f L acc r).1 (peK1 cfg f L acc r).2.2 := by
+    (h : FinK cfg t n (Lv t n) r.1 r.2.2) : FinK cfg t n (Lv t n) (peK1 cfg f L acc r).1 (peK1 cfg f L acc r).2.2 := by
   obtain ⟨c, v, s⟩ := r
   cases c <;> try exact h
-  exact gh_peK2 hN hE _ (gh_skipSpaces hN _ _ h)
+  exact gh_peK2 hN hE _ (gh_skipSpaces hN _ _ h).toK
 
 theorem gh_pmKey {f : Nat} (s : St) (h : Tk t n s) :
-    Fin cfg t n (Lv t n) (pmKey cfg f s).1 (pmKey cfg f s).2.2 := by
+    FinK cfg t n (Lv t n) (pmKey cfg f s).1 (pmKey cfg f s).2.2 := by
   simp only [pmKey, cur_loaded h.1.2]
   split
-  · exact gh_parseQuoted hN h.2 _ _ _ _ (Tk.move hN h)
+  · exact (gh_parseQuoted hN h.2 _ _ _ _ (Tk.move hN h)).toK
   · split
-    · exact gh_parseUnquoted hN _ _ _ h.1.1
+    · have hl := gh_parseUnquoted hN (f+1) [] s h.1.1
+      by_cases hk : (parseUnquoted (f+1) [] s).1.length > cfg.maxStrLen
+      · simp only [if_pos hk]
+        refine ⟨hl, fun hld => ?_⟩
+        obtain ⟨x, e1, e2, e3⟩ := gh_parseUnquoted_key hN (f+1) [] s h.1.1 hld
+        simp only [List.reverse_nil, List.nil_append] at e1
+        rw [e1] at hk
+        exact ⟨_, x, e3, e2, hk⟩
+      · simp only [if_neg hk]
+        exact hl
     · exact ⟨h.1, fun h0 => absurd h0 h.2⟩
 
 omit hN in
 theorem gh_pmK4 {f L : Nat} {ms : List (List Byte × Val)} (hM : GhM cfg t n f) (r : Code × St)
-    (h : Fin cfg t n (Tk t n) r.1 r.2) : Fin cfg t n (Lv t n) (pmK4 cfg f L ms r).1 (pmK4 cfg f L ms r).2.2 := by
+    (h : FinK cfg t n (Tk t n) r.1 r.2) : FinK cfg t n (Lv t n) (pmK4 cfg f L ms r).1 (pmK4 cfg f L ms r).2.2 := by
   obtain ⟨c, s⟩ := r
   cases c <;> try exact h
   exact hM _ _ _ h
 
 theorem gh_pmK3 {f L : Nat} {ms : List (List Byte × Val)} (hM : GhM cfg t n f) (r : Code × St)
-    (h : Fin cfg t n (Tk t n) r.1 r.2) : Fin cfg t n (Lv t n) (pmK3 cfg f L ms r).1 (pmK3 cfg f L ms r).2.2 := by
+    (h : FinK cfg t n (Tk t n) r.1 r.2) : FinK cfg t n (Lv t n) (pmK3 cfg f L ms r).1 (pmK3 cfg f L ms r).2.2 := by
   obtain ⟨c, s⟩ := r
   cases c <;> try exact h
   have h' : Tk t n s := h
@@ -119,19 +129,19 @@ theorem gh_pmK3 {f L : Nat} {ms : List (List Byte × Val)} (hM : GhM cfg t n f) 
   split
   · exact Tk.move hN h'
   · split
-    · exact gh_pmK4 hM _ (gh_skipSpaces hN _ _ (Tk.move hN h'))
+    · exact gh_pmK4 hM _ (gh_skipSpaces hN _ _ (Tk.move hN h')).toK
     · exact ⟨h'.1, fun h0 => absurd h0 h'.2⟩
 
 theorem gh_pmK2 {f L : Nat} {ms : List (List Byte × Val)} {key : List Byte} (hM : GhM cfg t n f) (r : Code × Val × St)
-    (h : Fin cfg t n (Lv t n) r.1 r.2.2) :
-    Fin cfg t n (Lv t n) (pmK2 cfg f L ms key r).1 (pmK2 cfg f L ms key r).2.2 := by
+    (h : FinK cfg t n (Lv t n) r.1 r.2.2) :
+    FinK cfg t n (Lv t n) (pmK2 cfg f L ms key r).1 (pmK2 cfg f L ms key r).2.2 := by
   obtain ⟨c, v, s⟩ := r
   cases c <;> try exact h
-  exact gh_pmK3 hN hM _ (gh_skipSpaces hN _ _ h)
+  exact gh_pmK3 hN hM _ (gh_skipSpaces hN _ _ h).toK
 
 theorem gh_pmK1 {f L : Nat} {ms : List (List Byte × Val)} {key : List Byte} (hV : GhV cfg t n f) (hM : GhM cfg t n f)
-    (r : Code × St) (h : Fin cfg t n (Tk t n) r.1 r.2) :
-    Fin cfg t n (Lv t n) (pmK1 cfg f L ms key r).1 (pmK1 cfg f L ms key r).2.2 := by
+    (r : Code × St) (h : FinK cfg t n (Tk t n) r.1 r.2) :
+    FinK cfg t n (Lv t n) (pmK1 cfg f L ms key r).1 (pmK1 cfg f L ms key r).2.2 := by
   obtain ⟨c, s⟩ := r
   cases c <;> try exact h
   have h' : Tk t n s := h
@@ -141,11 +151,11 @@ theorem gh_pmK1 {f L : Nat} {ms : List (List Byte × Val)} {key : List Byte} (hV
   · exact gh_pmK2 hN hM _ (hV _ _ (Tk.move hN h'))
 
 theorem gh_pmK0 {f L : Nat} {ms : List (List Byte × Val)} (hV : GhV cfg t n f) (hM : GhM cfg t n f)
-    (r : Code × List Byte × St) (h : Fin cfg t n (Lv t n) r.1 r.2.2) :
-    Fin cfg t n (Lv t n) (pmK0 cfg f L ms r).1 (pmK0 cfg f L ms r).2.2 := by
+    (r : Code × List Byte × St) (h : FinK cfg t n (Lv t n) r.1 r.2.2) :
+    FinK cfg t n (Lv t n) (pmK0 cfg f L ms r).1 (pmK0 cfg f L ms r).2.2 := by
   obtain ⟨c, k, s⟩ := r
   cases c <;> try exact h
-  exact gh_pmK1 hN hV hM _ (gh_skipSpaces hN _ _ h)
+  exact gh_pmK1 hN hV hM _ (gh_skipSpaces hN _ _ h).toK
 
 /-- **where the three mutually recursive routines stop** -/
 theorem gh_mutual : ∀ f, GhV cfg t n f ∧ GhE cfg t n f ∧ GhM cfg t n f := by
@@ -161,7 +171,7 @@ theorem gh_mutual : ∀ f, GhV cfg t n f ∧ GhE cfg t n f ∧ GhM cfg t n f := 
     refine ⟨?_, ?_, ?_⟩
     · intro L s h
       rw [parseVariant_succ]
-      exact gh_pvK hN ihE ihM _ (gh_skipSpaces hN _ _ h)
+      exact gh_pvK hN ihE ihM _ (gh_skipSpaces hN _ _ h).toK
     · intro L s acc h
       rw [parseElems_succ]
       exact gh_peK1 hN ihE _ (ihV _ _ h)
